@@ -79,8 +79,7 @@ PROPS["C19"] = dict(
           "per dimension + up to 10 operations incl. reindexed(i) and blocked(a,b); strided(s) only where s divides the current first index (extension() asserts offset % stride == 0) and "
           "diagonal() only on zero-based views (it slices with literal {0,n}); oracle as in C01/C02 with first indices in the model. "
           "non-trivial = as in the replayed program; distinct = hash of decoded case text"),
-    assumptions=COMMON_ASSUME + ["re-based arrays with zero elements: only shape operations are applied (slicing trips the recorded null-pointer-offset assertion)",
-                 "assignment through views (C05) on re-based arrays is not exercised here"],
+    assumptions=COMMON_ASSUME + ["re-based arrays with zero elements: only shape operations are applied (slicing trips the recorded null-pointer-offset assertion)"],
 )
 
 PROPS["C04"] = dict(
@@ -168,7 +167,7 @@ PROPS["C10"] = dict(
           "replacement exactly per trait on copy/move assignment and swap, supplied allocator for allocator-extended constructors) + ledger. swap between unequal non-propagating allocators is "
           "UB for every standard container and excluded (counted). non-trivial = slots with unequal allocators and >= 2 operations; distinct = hash of decoded history text"),
     assumptions=COMMON_ASSUME[:1] + ["assignments that build an internal temporary (initializer list, iterator pair, view/convertible array of other extents) may leave the temporary's default-constructed allocator when propagate_on_container_move_assignment is true; no trait covers these assignments, both outcomes are accepted and the storage must agree with the reported allocator",
-                 "allocator-extended move construction with an unequal allocator is excluded and counted (recorded known finding)"],
+                 "allocator-extended move construction with an unequal allocator (pmr arrays on two resources included) must move the elements into storage of the given allocator and leave the source empty"],
 )
 
 PROPS["C05"] = dict(
